@@ -76,6 +76,11 @@ CHECKS = {
    text="For each of the 24 stateless charsets and four terminal classes (DEC ACS via ESC ( 0, DEC ACS via SO/SI, CP437 alternate font, no ACS) every BMP rune from U+0020 (+64 supplementary) is drawn as cell content and, when it is a zero-width mark, as a combining rune; the reference terminal decodes the written bytes in the same charset with the alternate character set interpreted through the entry's acsc pairs; the shown glyph must be the rune (if the codec round-trips it), else its ACS glyph, else the registered fallback, else '?', padded to the rune's width, the output must be valid in the charset (no raw UTF-8, no 0x1A), and CanDisplay must agree with the same decision. Fallback registration changes are explored as histories (depth 4/5) with a redraw after each change.",
    note="x/text / gdamore/encoding codecs define the charsets (runes where the codec is asymmetric are skipped and counted); glyphs the description maps to the same ACS byte are treated as the same glyph; fallback strings are of the rune's width as the API requires.",
    design="2/C17"),
+ "C04": dict(level="model_checking",
+   technique="explicit-state search over mode-changing API histories with Suspend/Resume/Fini on the real screen; reference terminal registers and the Tty call log are the observed state",
+   text="Breadth-first search with full-state keys (private screen state, reference terminal registers, application-state model) over 23 operations (EnableMouse with five flag sets, DisableMouse, paste and focus on/off, six cursor style/colour settings, SetTitle, Show/HideCursor, draw+Show, Suspend, Resume, Fini) to depth 5 on xterm-256color (thorough 10, where the frontier closes) and depth 3 on one representative per mode-signature class of the 45 family entries (thorough: every entry), each with TCELL_ALTSCREEN unset and disabled. At every Suspend and Fini the reference terminal's registers must be back to the pre-engage values and the Tty call log must satisfy the contract; at every Resume exactly the application's modes must be on again.",
+   note="Registers are those of the project's reference terminal; 30 s watchdog on Suspend/Fini; the quick tier is depth-bounded (evidence reports whether the frontier closed).",
+   design="2/C04"),
  # --- new checks above this line ---
 }
 
